@@ -351,6 +351,14 @@ class G(object):
         else:
             for j in targets:
                 q['assign'].append([['field', 'a', j, self.assign_spelling(j)], self.e_any(2, allow_list=False)])
+        if q['assign'] and rng.random() < 0.15:
+            # the same column assigned twice (possibly under two spellings): every right-hand side still sees the ORIGINAL record, the later one wins
+            f0 = q['assign'][rng.randrange(len(q['assign']))][0]
+            j = f0[2]
+            tgt = ['field', 'a', j, self.assign_spelling(j)]
+            src = ['field', 'a', j, self.spelling('a', j)]
+            rhs = src if self.col_type('a', j) != 'str' else ['concat', src, ['str', rng.choice(['?', '!', 'x'])]]
+            q['assign'].insert(rng.randrange(1, len(q['assign']) + 1), [tgt, rhs])
         if 'where' in features:
             q['where'] = self.gen_where()
         q['bare'] = rng.random() < 0.5
